@@ -482,6 +482,25 @@ Proof.
     + rewrite (W2 eq_refl). destruct (x_ad x); reflexivity.
 Qed.
 
+(* only QUERY / IN requests touch the cache *)
+Lemma bypass_untouched cfg st k op now delay u :
+  op <> 0 \/ k_class k <> class_in ->
+  step cfg st (EQuery k op now delay u) = Ok (st, OBypass).
+Proof.
+  intros H. cbn [step].
+  destruct ((op =? 0) && (k_class k =? class_in)) eqn:E; [|reflexivity].
+  apply andb_true_iff in E. destruct E as [E1 E2]. apply N.eqb_eq in E1, E2. tauto.
+Qed.
+
+Example ex_bypass :
+  c20_run config_default
+    [EQuery (key_of_request 1 3 1 true false false false) 0 0 0 (RErr 1);
+     EQuery (key_of_request 1 1 1 true false false false) 4 0 0 (RErr 1);
+     EQuery (key_of_request 1 1 1 true false false false) 0 0 0 (RErr 1);
+     EQuery (key_of_request 1 1 1 true false false false) 0 1 0 (RErr 1)]
+  = Ok [OBypass; OBypass; OForwarded; OServed (RErr 1)].
+Proof. vm_compute. reflexivity. Qed.
+
 (* ---------- 6. liveness at the boundary: `>` not `>=` ---------------------------------------------- *)
 Lemma boundary_served cfg st k now delay u v :
   inv cfg st -> k_class k = class_in -> cget k (s_cache st) = Some v ->
